@@ -29,7 +29,10 @@ import (
 	"encoding/hex"
 	"encoding/json"
 	"fmt"
+	"math"
 	"math/big"
+	"math/bits"
+	"math/rand"
 	"net"
 	"net/http"
 	"net/url"
@@ -41,10 +44,13 @@ import (
 	"time"
 
 	"github.com/apernet/quic-go"
+	"github.com/apernet/quic-go/congestion"
 	"github.com/apernet/quic-go/http3"
+	"github.com/apernet/quic-go/monotime"
 
 	"github.com/apernet/hysteria/core/v2/client"
 	"github.com/apernet/hysteria/core/v2/internal/congestion/brutal"
+	"github.com/apernet/hysteria/core/v2/internal/congestion/common"
 	"github.com/apernet/hysteria/core/v2/internal/protocol"
 )
 
@@ -63,6 +69,9 @@ type c10Case struct {
 	Hdr    *string  `json:"hdr"` // raw header value (plain ASCII), null = header not sent
 	Reqs   []c10Req `json:"reqs"` // k=reauth: the POST /auth requests sent one after the other on ONE connection
 	Steps  []c10Step `json:"steps"` // k=seq: the handshakes made, one after the other, from ONE *client.Config
+	SDis   bool      `json:"sdis"`  // k=wire: BandwidthConfig.DisableLossCompensation of the server / of the client
+	CDis   bool      `json:"cdis"`
+	Loop   c10WLoop  `json:"loop"`  // k=wire: the send loop driven on a sender constructed like the installed one
 }
 
 // c10Step: one client.NewClient call on the shared Config object of a k=seq case
@@ -194,7 +203,7 @@ func c10StartServer(c c10Case) (*c10Server, error) {
 		TLSConfig:             TLSConfig{Certificates: []tls.Certificate{c10TLS()}},
 		Conn:                  pc,
 		CongestionConfig:      CongestionConfig{Type: c.SType},
-		BandwidthConfig:       BandwidthConfig{MaxTx: c.STx, MaxRx: c.SRx},
+		BandwidthConfig:       BandwidthConfig{MaxTx: c.STx, MaxRx: c.SRx, DisableLossCompensation: c.SDis},
 		IgnoreClientBandwidth: c.Ignore,
 		Authenticator:         rec,
 		EventLogger:           rec,
@@ -437,6 +446,371 @@ func c10Handshake(c c10Case, res map[string]any) {
 	c10Side(v, "server", sf, sr, c10ConfiguredKind(c.SType), res["connect_tx"].(uint64), res["s_kind"].(string), res["s_bps"].(int64))
 	cf, cr := c10ClientWant(c.Ignore, c.CTx, c.SRx)
 	c10Side(v, "client", cf, cr, c10ConfiguredKind(c.CType), info.Tx, ck, cb)
+}
+
+// ---------------------------------------------------------------- k=wire: the negotiated rate on the wire (C10 o C11)
+//
+// A complete real handshake (as k=hs, with DisableLossCompensation configured on both sides); the controller installed on
+// each side is read by reflection (type, bps, disableLossCompensation).  For every side that got a Brutal sender, a sender
+// constructed exactly as UseBrutal constructs it - brutal.NewBrutalSender(bps, dis) with the values READ FROM THE INSTALLED
+// OBJECT - is driven by a simulated QUIC send loop on a virtual clock (send when CanSend && HasPacingBudget, otherwise
+// sleep until TimeUntilSend; ack/loss batches and idle gaps in between).  After every call the same queries as in the C11
+// harness are recorded (same digest), so that the Coq side can replay the history on C11's model of the sender that C10's
+// model says was installed.  The verdict is the composed clause evaluated on the implementation alone: over every window
+// of sends, bytes <= burst + (REPORTED rate / 0.8) x interval, and a sleep until the announced time yields pacing budget.
+
+type c10WLoop struct {
+	Seed   int64   `json:"seed"`
+	N      int     `json:"n"`
+	Mds    int64   `json:"mds"`
+	RTT    int64   `json:"rtt"`
+	T0     int64   `json:"t0"`
+	LossP  float64 `json:"lossp"`
+	EvP    float64 `json:"evp"`
+	IdleP  float64 `json:"idlep"`
+	MaxGap int64   `json:"maxgap"`
+	Slack  int64   `json:"slack"`
+	Small  bool    `json:"small"`
+	Drain  bool    `json:"drain"`
+}
+
+type c10WStep struct {
+	Op    string `json:"op"` // sent | ev | mds | nop | rtt  (same shape as the C11 harness's steps)
+	T     int64  `json:"t"`
+	Size  int64  `json:"size"`
+	A     int    `json:"a"`
+	L     int    `json:"l"`
+	S     int64  `json:"s"`
+	Now   int64  `json:"now"`
+	RTT   int64  `json:"rtt"`
+	Hpb   bool   `json:"hpb"`
+	Pre   int64  `json:"pre"`   // sent: Budget(t) just before OnPacketSent
+	Waked bool   `json:"waked"` // this nop is "slept exactly until the announced time"
+}
+
+type c10WRTT struct{ srtt time.Duration }
+
+func (r *c10WRTT) MinRTT() time.Duration        { return r.srtt }
+func (r *c10WRTT) LatestRTT() time.Duration     { return r.srtt }
+func (r *c10WRTT) SmoothedRTT() time.Duration   { return r.srtt }
+func (r *c10WRTT) MeanDeviation() time.Duration { return 0 }
+func (r *c10WRTT) MaxAckDelay() time.Duration   { return 0 }
+func (r *c10WRTT) PTO(bool) time.Duration       { return 0 }
+func (r *c10WRTT) UpdateRTT(_, _ time.Duration) {}
+func (r *c10WRTT) SetMaxAckDelay(time.Duration) {}
+func (r *c10WRTT) SetInitialRTT(time.Duration)  {}
+
+const c10WP = 1<<61 - 1
+
+type c10WRun struct {
+	b     *brutal.BrutalSender
+	pacer *common.Pacer
+	rtt   *c10WRTT
+	out   []c10WStep
+	now   int64
+	nobs  int64
+	dig   uint64
+}
+
+func c10WNew(bps uint64, dis bool) *c10WRun {
+	r := &c10WRun{rtt: &c10WRTT{}}
+	r.b = brutal.NewBrutalSender(bps, dis)
+	r.b.SetRTTStatsProvider(r.rtt)
+	r.pacer = (*common.Pacer)(reflect.ValueOf(r.b).Elem().FieldByName("pacer").UnsafePointer())
+	return r
+}
+
+func (r *c10WRun) mds() int64 { return reflect.ValueOf(r.b).Elem().FieldByName("maxDatagramSize").Int() }
+
+// the digest of coq/corr/C11_Corr.v: dig := (dig*1000003 + v + 2^63) mod (2^61-1)
+func (r *c10WRun) digAdd128(vhi, vlo uint64) {
+	hi, lo := bits.Mul64(r.dig, 1000003)
+	lo, c := bits.Add64(lo, vlo, 0)
+	hi, _ = bits.Add64(hi, vhi, c)
+	_, r.dig = bits.Div64(hi, lo, c10WP)
+}
+func (r *c10WRun) digU(v uint64) {
+	lo, c := bits.Add64(v, 1<<63, 0)
+	r.digAdd128(c, lo)
+}
+func (r *c10WRun) digI(v int64) { r.digAdd128(0, uint64(v)^(1<<63)) }
+func (r *c10WRun) digB(v bool) {
+	if v {
+		r.digU(1)
+	} else {
+		r.digU(0)
+	}
+}
+
+func (r *c10WRun) apply(st c10WStep) c10WStep {
+	b := r.b
+	pan := false
+	switch st.Op {
+	case "rtt":
+		r.rtt.srtt = time.Duration(st.RTT)
+		r.out = append(r.out, st)
+		return st
+	case "sent":
+		st.Pre = int64(r.pacer.Budget(monotime.Time(st.T)))
+		b.OnPacketSent(monotime.Time(st.T), 0, 0, congestion.ByteCount(st.Size), true)
+		r.now = st.T
+	case "ev":
+		pan, _ = vCatch(func() {
+			b.OnCongestionEventEx(0, monotime.Time(st.T), make([]congestion.AckedPacketInfo, st.A), make([]congestion.LostPacketInfo, st.L))
+		})
+		r.now = st.T
+	case "mds":
+		b.SetMaxDatagramSize(congestion.ByteCount(st.S))
+	case "nop":
+		r.now = st.Now
+	}
+	st.Now = r.now
+	st.RTT = int64(r.rtt.srtt)
+	bud := int64(r.pacer.Budget(monotime.Time(st.Now)))
+	var tus, wake int64
+	tusp, _ := vCatch(func() { tus = int64(b.TimeUntilSend(0)) })
+	if tusp {
+		tus = 0
+	} else if tus != 0 {
+		wake = int64(r.pacer.Budget(monotime.Time(tus)))
+	}
+	st.Hpb = b.HasPacingBudget(monotime.Time(st.Now))
+	cwnd := int64(b.GetCongestionWindow())
+	r.nobs++
+	r.digB(pan)
+	r.digI(bud)
+	r.digB(tusp)
+	r.digI(tus)
+	r.digI(wake)
+	r.digB(st.Hpb)
+	r.digI(cwnd)
+	r.digB(b.CanSend(congestion.ByteCount(r.mds())))
+	r.digB(b.CanSend(congestion.ByteCount(cwnd)))
+	r.digB(b.CanSend(congestion.ByteCount(cwnd + 1)))
+	r.digU(math.Float64bits(reflect.ValueOf(b).Elem().FieldByName("ackRate").Float()))
+	r.out = append(r.out, st)
+	return st
+}
+
+func c10WLoopRun(bps uint64, dis bool, lp c10WLoop) *c10WRun {
+	rng := rand.New(rand.NewSource(lp.Seed))
+	r := c10WNew(bps, dis)
+	now, rtt := lp.T0, lp.RTT
+	mds := int64(congestion.InitialPacketSize)
+	var infl int64
+	var pending []int64
+	r.apply(c10WStep{Op: "rtt", RTT: rtt})
+	r.apply(c10WStep{Op: "nop", Now: now})
+	if lp.Mds != mds {
+		mds = lp.Mds
+		r.apply(c10WStep{Op: "mds", S: mds})
+	}
+	ackBatch := func() {
+		n := 1 + rng.Intn(40)
+		if rng.Float64() < 0.1 {
+			n = 1 + rng.Intn(400)
+		}
+		a, l := 0, 0
+		for k := 0; k < n; k++ {
+			if len(pending) > 0 {
+				infl -= pending[0]
+				pending = pending[1:]
+			}
+			if rng.Float64() < lp.LossP {
+				l++
+			} else {
+				a++
+			}
+		}
+		r.apply(c10WStep{Op: "ev", T: now, A: a, L: l})
+	}
+	if lp.Drain {
+		size := int64(r.pacer.Budget(monotime.Time(now))) - rng.Int63n(2*mds)
+		if size < 0 {
+			size = 0
+		}
+		r.apply(c10WStep{Op: "sent", T: now, Size: size})
+	}
+	for it := 0; it < lp.N; it++ {
+		x := rng.Float64()
+		switch {
+		case x < lp.EvP:
+			ackBatch()
+		case x < lp.EvP+lp.IdleP:
+			gap := int64(1e6) + rng.Int63n(lp.MaxGap)
+			if rng.Float64() < 0.5 {
+				gap = rng.Int63n(3e6)
+			}
+			now += gap
+			r.apply(c10WStep{Op: "nop", Now: now})
+		default:
+			can := r.b.CanSend(congestion.ByteCount(infl))
+			hpb := r.b.HasPacingBudget(monotime.Time(now))
+			switch {
+			case can && hpb:
+				size := mds
+				if lp.Small && rng.Float64() < 0.3 {
+					size = 1 + rng.Int63n(mds)
+				}
+				infl += size
+				pending = append(pending, size)
+				r.apply(c10WStep{Op: "sent", T: now, Size: size})
+				now += rng.Int63n(20000)
+			case !hpb:
+				var tus int64
+				p, _ := vCatch(func() { tus = int64(r.b.TimeUntilSend(congestion.ByteCount(infl))) })
+				if p || tus == 0 {
+					now += 1e6
+					r.apply(c10WStep{Op: "nop", Now: now})
+					break
+				}
+				exact := true
+				if tus > now {
+					now = tus
+				} else {
+					exact = false
+				}
+				if lp.Slack > 0 && rng.Float64() < 0.5 {
+					now += rng.Int63n(lp.Slack)
+					exact = false
+				}
+				r.apply(c10WStep{Op: "nop", Now: now, Waked: exact})
+			default:
+				now += 1 + rng.Int63n(max(rtt, 1000))
+				ackBatch()
+			}
+		}
+	}
+	return r
+}
+
+// (B*dt)/1e9, saturating
+func c10WAccrual(B, dt uint64) uint64 {
+	hi, lo := bits.Mul64(B, dt)
+	if hi >= 1000000000 {
+		return math.MaxInt64
+	}
+	q, _ := bits.Div64(hi, lo, 1000000000)
+	if q > math.MaxInt64 {
+		return math.MaxInt64
+	}
+	return q
+}
+
+// the composed clause on one recorded history: reported = what the application was told
+func c10WVerdict(v *c10Verdict, who string, reported uint64, steps []c10WStep) (windows int) {
+	if reported < 65536 || reported > 1<<40 {
+		return 0 // outside the range of rates the clause is stated for
+	}
+	B := reported + reported/4 // reported / 0.8
+	type snd struct{ t, size int64 }
+	var sends []snd
+	maxMds := int64(congestion.InitialPacketSize)
+	for i, st := range steps {
+		switch st.Op {
+		case "mds":
+			if st.S > maxMds {
+				maxMds = st.S
+			}
+		case "sent":
+			if st.Size > st.Pre {
+				v.fail("%s: harness sent %d bytes with a budget of %d (step %d)", who, st.Size, st.Pre, i)
+				return 0
+			}
+			sends = append(sends, snd{st.T, st.Size})
+		case "nop":
+			if st.Waked && !st.Hpb {
+				v.failc("wire-stalled", "%s: slept until the time TimeUntilSend announced (%d) but HasPacingBudget is still false (step %d)", who, st.Now, i)
+				return 0
+			}
+		}
+	}
+	burst := int64(c10WAccrual(B, 4000000))
+	if 10*maxMds > burst {
+		burst = 10 * maxMds
+	}
+	for i := range sends {
+		var sum int64
+		for j := i; j < len(sends); j++ {
+			sum += sends[j].size
+			dt := uint64(sends[j].t - sends[i].t)
+			if hi, lo := bits.Mul64(B, dt); hi != 0 || lo >= 1<<63 {
+				break
+			}
+			windows++
+			if bound := burst + int64(c10WAccrual(B, dt)); sum > bound {
+				v.failc("wire-rate", "%s: reported rate %d B/s, but the sender as installed releases %d bytes in %d ns (sends %d..%d); burst %d + reported/0.8 x interval = %d",
+					who, reported, sum, dt, i, j, burst, bound)
+				return windows
+			}
+		}
+	}
+	return windows
+}
+
+func c10InstalledDis(conn *quic.Conn) (dis bool) {
+	defer func() { _ = recover() }()
+	sph := reflect.ValueOf(conn).Elem().FieldByName("sentPacketHandler").Elem()
+	cc := sph.Elem().FieldByName("congestion").Elem().Elem().FieldByName("CC").Elem()
+	if cc.Type().String() == "*brutal.BrutalSender" {
+		return cc.Elem().FieldByName("disableLossCompensation").Bool()
+	}
+	return false
+}
+
+func c10Wire(c c10Case, res map[string]any) {
+	v := &c10Verdict{ok: true}
+	defer v.store(res)
+	cs, err := c10StartServer(c)
+	if err != nil {
+		res["err"] = "server"
+		v.fail("server did not start: %v", err)
+		return
+	}
+	defer cs.s.Close()
+	cl, info, err := client.NewClient(&client.Config{
+		ServerAddr:       cs.addr,
+		TLSConfig:        client.TLSConfig{InsecureSkipVerify: true},
+		CongestionConfig: client.CongestionConfig{Type: c.CType},
+		BandwidthConfig:  client.BandwidthConfig{MaxTx: c.CTx, MaxRx: c.CRx, DisableLossCompensation: c.CDis},
+	})
+	if err != nil {
+		res["err"] = "client"
+		v.fail("handshake failed: %v", err)
+		return
+	}
+	defer cl.Close()
+	res["info_tx"] = info.Tx
+	cconn := c10ClientConn(cl)
+	ck, cb := c10Installed(cconn)
+	res["c_kind"], res["c_bps"], res["c_dis"] = ck, cb, c10InstalledDis(cconn)
+	if err := cs.observe(res); err != nil {
+		res["err"] = "observe"
+		v.fail("%v", err)
+		return
+	}
+	cs.mu.Lock()
+	res["s_dis"] = c10InstalledDis(cs.conns[0])
+	cs.mu.Unlock()
+	sf, sr := c10ServerWant(c.Ignore, c.STx, c.CRx)
+	c10Side(v, "server", sf, sr, c10ConfiguredKind(c.SType), res["connect_tx"].(uint64), res["s_kind"].(string), res["s_bps"].(int64))
+	cf, cr := c10ClientWant(c.Ignore, c.CTx, c.SRx)
+	c10Side(v, "client", cf, cr, c10ConfiguredKind(c.CType), info.Tx, ck, cb)
+	// the sender as installed, on the wire
+	windows := 0
+	side := func(who string, kind string, bps int64, dis bool, reported uint64, seedOff int64) {
+		if kind != "brutal" || bps <= 0 {
+			return
+		}
+		lp := c.Loop
+		lp.Seed += seedOff
+		r := c10WLoopRun(uint64(bps), dis, lp)
+		res[who+"_steps"], res[who+"_nobs"], res[who+"_dig"] = r.out, r.nobs, r.dig
+		windows += c10WVerdict(v, who, reported, r.out)
+	}
+	side("s", res["s_kind"].(string), res["s_bps"].(int64), res["s_dis"].(bool), res["connect_tx"].(uint64), 0)
+	side("c", ck, cb, res["c_dis"].(bool), info.Tx, 1)
+	res["windows"] = windows
 }
 
 // c10Declared reads a header value the way the protocol text does: a decimal uint64 (wellFormed), or
@@ -999,6 +1373,8 @@ func TestVerifC10(t *testing.T) {
 			run(c10Reauth)
 		case "seq":
 			run(c10Seq)
+		case "wire":
+			run(c10Wire)
 		default:
 			t.Fatalf("unknown case kind %q", c.K)
 		}
